@@ -117,6 +117,23 @@ def generate(rng: Rng, n, tier="quick"):
                     case["id"] = "%s-indend%04d" % (ID, ib)
                     ib += 1
                     out.append((case, {"npart": 2}))
+    # EXHAUSTIVE: every @-variable behind 0..5 `../` at scope depth 0..3 (top level, each, each in with, nested each), in a template
+    # and in a partial called from there (a partial starts with a scope stack of its own): more `../` than scopes is a missing value
+    iv = 0
+    for var in ("index", "key", "first", "last", "root", "nosuch"):
+        for ups in range(0, 6):
+            tag = "{{@" + "../" * ups + var + "}}"
+            for wrap in ("[%s]", "{{#each l}}[%s]{{/each}}", "{{#with o}}{{#each l}}[%s]{{/each}}{{/with}}", "{{#each ll}}{{#each this}}[%s]{{/each}}{{/each}}",
+                         "{{#each l}}{{> p}}{{/each}}", "{{> p}}"):
+                for strict in (False, True):
+                    case = session({"strict": strict, "escape": "html", "helpers": std_helpers()},
+                                   [("p", "(%s)" % tag), ("main", wrap % tag if "%s" in wrap else wrap)], {"api": "render", "name": "main"},
+                                   {"l": [1, 2], "o": {"l": ["a"]}, "ll": [[1], [2, 3]]})
+                    case["ops"].append({"op": "reg_string", "reg": 0, "name": "after", "src": "ok:{{{n}}}"})
+                    case["ops"].append({"op": "render", "reg": 0, "api": "render", "name": "after", "data": enc({"n": 7})})
+                    case["id"] = "%s-atup%04d" % (ID, iv)
+                    iv += 1
+                    out.append((case, {"npart": 1}))
     for i in range(n):
         c, m = gen_case(rng.fork(i), i)
         c["id"] = "%s-%06d" % (ID, i)
